@@ -61,6 +61,14 @@ def run(tier, seed, replay=None):
             lang = T.LANGS[i % 4]
             L = langs[lang]
             tab = T.gen_table(rng, L, conforming=True)
+            chain_cid = None
+            if rng.random() < 0.5:
+                # a chain of variable bounds  K<T1, T2 : T1, T3 : T2>
+                chain_cid = max(tab) + 1
+                p1 = ("V", chain_cid * 10, 0, None)
+                p2 = ("V", chain_cid * 10 + 1, 0, p1)
+                p3 = ("V", chain_cid * 10 + 2, 0, p2)
+                tab[chain_cid] = ([p1, p2, p3], [])
             b = T.Builder(L, tab)
             pool, decls = mk_pool(L, b, tab)
             gens = [c for c in tab if tab[c][0]]
@@ -68,14 +76,18 @@ def run(tier, seed, replay=None):
             for _ in range(8):
                 if not gens:
                     break
-                c = rng.choice(gens)
+                c = chain_cid if (chain_cid is not None and rng.random() < 0.3) else rng.choice(gens)
                 con = decls[c].get_type()
                 params = con.type_parameters
                 cfg.dis.use_site_variance = rng.random() < 0.25
                 cfg.dis.use_site_contravariance = rng.random() < 0.25
                 mode = rng.choice(["class", "class", "function"])
                 pre = None
-                if rng.random() < 0.4:
+                nums_ = [t for t in L.builtin_terms(prims=False) if L.info[t[1]]["name"] == "NumberType"]
+                if c == chain_cid and nums_ and rng.random() < 0.7:
+                    # only the LAST parameter of the chain is requested: the helper has to make T2 and T1 follow
+                    pre = {params[2]: b.obj(nums_[0])}
+                elif c != chain_cid and rng.random() < 0.4:
                     # a pre-assignment that is consistent with the bounds by construction
                     pre = {}
                     for p in params:
@@ -88,14 +100,17 @@ def run(tier, seed, replay=None):
                                     cand = tp.substitute_type(p.bound, pre)
                                 except Exception:       # noqa: BLE001
                                     continue
+                                if cand.is_type_var() and rng.random() < 0.6 and not any(
+                                        q in pre for q in params):
+                                    # T3 : T2 with T2 not assigned: any ground type is consistent, the helper
+                                    # has to make T2 (and T1 ...) follow
+                                    cand = b.obj(T.gen_ground(rng, L, tab, [t for t in L.builtin_terms(prims=False)
+                                                                             if not L.info[t[1]]["bottom"]], 0))
                                 if cand.has_type_variables():
                                     continue
                             pre[p] = cand
                     # every later parameter bounded by an assigned one must be able to follow: keep only
                     # prefixes that are closed under "bound is assigned"
-                    for p in params:
-                        if p in pre and p.bound is not None and p.bound.is_type_var() and p.bound not in pre:
-                            del pre[p]
                 vc = None
                 r = rng.random()
                 if r < 0.35:
